@@ -589,3 +589,11 @@ mod tests {
         }
     }
 }
+
+#[cfg(prometheus_verif)]
+impl<T: MetricVecBuilder> MetricVec<T> {
+    /// Verification hook: address of the lock protecting the children map.
+    pub fn verif_lock_addr(&self) -> usize {
+        self.v.children.addr()
+    }
+}
